@@ -9,6 +9,7 @@ is disposed of finds a registry entry with a drop function and the normal kind (
 registries and the event sets of the registered handlers (`QT`), kept by the delivery path on every exit
 (`deliverOne_qt`); `Proofs/EvLedgerConsTop.lean` establishes it at every flush of every top-level operation. -/
 namespace Evenio
+namespace EvLedger
 
 /-! ## the accounting predicate "no serial is missing" -/
 
@@ -548,4 +549,5 @@ theorem flush_cov (hst : ∀ k h, reg k = some h → SendsTOK G T h) (fuel : Nat
 
 
 end qt
+end EvLedger
 end Evenio
